@@ -7,12 +7,14 @@ package main
 import (
 	"bytes"
 	"fmt"
+	"net/http"
 	"os"
 	"sort"
 	"time"
 
 	"github.com/practable/relay/verifharness/cmd/c03/hubkit"
 	"github.com/practable/relay/verifharness/lib"
+	log "github.com/sirupsen/logrus"
 )
 
 type Op struct {
@@ -99,7 +101,11 @@ type Seen struct {
 	IDs      []uint64 `json:"ids"`
 }
 
+// a connection that fails in the middle of a message announces partialAnnounced bytes and sends partialSent
+const partialAnnounced, partialSent = 1000, 400
+
 type Case struct {
+	Level   string `json:"level,omitempty"` // log level the relay ran this case at (panic = silent, debug, trace)
 	Ops     []Op   `json:"ops"`
 	Seen    []Seen `json:"seen"`
 	Kind    string `json:"kind,omitempty"`
@@ -109,7 +115,7 @@ type Case struct {
 const bufferSize = 128
 
 // the first eight are walked through exhaustively, the last two (look-alikes of write) are added at random
-var pool = []string{"read", "write", "Read", " read", "readwrite", "relay:admin", "host", "", "Write", "write "}
+var pool = []string{"read", "write", "Read", " read", "readwrite", "relay:admin", "host", "", "Write", "write ", "READ", " Write ", "\uff52\uff45\uff41\uff44", "wr\u0456te"}
 
 func coqStrs(ss []string) string {
 	xs := make([]string, len(ss))
@@ -123,7 +129,7 @@ func (o Op) coq() string {
 	switch o.K {
 	case "join", "connect":
 		return lib.App("OJoin", lib.App("mkreq", lib.N(o.N), lib.Str(o.path()), lib.Str(o.TT), coqStrs(o.Scopes), lib.Nat(bufferSize)))
-	case "leave":
+	case "leave", "partial": // a connection that dies mid-message is simply gone
 		return lib.App("OLeave", lib.N(o.N))
 	}
 	size := len(hubkit.PayloadFill(o.ID, o.N, o.Seq, o.TT, 0)) + o.Fill
@@ -151,7 +157,7 @@ func (c Case) coq() string {
 	// reach the access API (issue, noise) are not hub events
 	ops := []string{}
 	for _, o := range c.Ops {
-		if !noCode[o.N] && (o.K == "join" || o.K == "connect" || o.K == "leave" || o.K == "send") {
+		if !noCode[o.N] && (o.K == "join" || o.K == "connect" || o.K == "leave" || o.K == "send" || o.K == "partial") {
 			ops = append(ops, o.coq())
 		}
 	}
@@ -207,9 +213,9 @@ func genCase(r *lib.Rng, mask int) []Op {
 		name   uint64
 	}
 	parts := make([]*part, nP)
-	parts[0] = &part{scopes: subset(mask|r.Intn(4)<<8, r)}
+	parts[0] = &part{scopes: subset(mask|r.Intn(64)<<8, r)}
 	for i := 1; i < nP; i++ {
-		m := r.Intn(1024)
+		m := r.Intn(16384)
 		switch r.Intn(4) {
 		case 0:
 			m |= 3 // reader and writer
@@ -240,6 +246,17 @@ func genCase(r *lib.Rng, mask int) []Op {
 		nextID++
 		ops = append(ops, sized(r, Op{K: "send", N: p.name, TT: tt, MT: 1 + r.Intn(2), ID: nextID, Seq: seq}))
 	}
+	if r.Chance(1, 3) {
+		// somebody dies in the middle of a message; the others go on
+		p := parts[r.Intn(nP)]
+		nextID++
+		ops = append(ops, Op{K: "partial", N: p.name, TT: tt, MT: 1 + r.Intn(2), ID: nextID, Seq: seq + 1, Size: partialAnnounced})
+		q := parts[r.Intn(nP)]
+		if q != p {
+			nextID++
+			ops = append(ops, Op{K: "send", N: q.name, TT: tt, MT: 1, ID: nextID, Seq: seq + 2})
+		}
+	}
 	return ops
 }
 
@@ -262,11 +279,11 @@ func genDeferred(r *lib.Rng, mask int) []Op {
 		var sc []string
 		switch {
 		case i == 0 && r.Bool():
-			sc = subset(mask|r.Intn(4)<<8, r)
+			sc = subset(mask|r.Intn(64)<<8, r)
 		case r.Chance(2, 3):
 			sc = append([]string(nil), simple[r.Intn(len(simple))]...)
 		default:
-			sc = subset(r.Intn(1024), r)
+			sc = subset(r.Intn(16384), r)
 		}
 		nextName++
 		parts[i] = &part{scopes: sc, tt: tts[r.Intn(2)], name: nextName}
@@ -279,7 +296,7 @@ func genDeferred(r *lib.Rng, mask int) []Op {
 		if r.Bool() {
 			o.Scopes = append([]string(nil), simple[r.Intn(len(simple))]...)
 		} else {
-			o.Scopes = subset(1+r.Intn(1023), r)
+			o.Scopes = subset(1+r.Intn(16383), r)
 		}
 		return o
 	}
@@ -334,6 +351,16 @@ func genDeferred(r *lib.Rng, mask int) []Op {
 			ops = append(ops, sized(r, Op{K: "send", N: p.name, TT: p.tt, MT: 1 + r.Intn(2), ID: nextID, Seq: seq}))
 		}
 	}
+	if r.Chance(1, 3) {
+		p := parts[r.Intn(nP)]
+		nextID++
+		ops = append(ops, Op{K: "partial", N: p.name, TT: p.tt, MT: 1 + r.Intn(2), ID: nextID, Seq: seq + 1, Size: partialAnnounced})
+		q := parts[r.Intn(nP)]
+		if q != p {
+			nextID++
+			ops = append(ops, Op{K: "send", N: q.name, TT: q.tt, MT: 1, ID: nextID, Seq: seq + 2})
+		}
+	}
 	return ops
 }
 
@@ -378,17 +405,26 @@ func needlesOf(c *Case) []needle {
 		switch o.K {
 		case "join", "issue":
 			scopes[o.N] = o.Scopes
-		case "send":
+		case "send", "partial":
 			if has(scopes[o.N], "write") {
 				continue
 			}
 			pl := o.payload()
-			hdr := fmt.Sprintf("<#%d,%d,", o.ID, o.N)
-			if o.Fill == 0 {
-				hdr = fmt.Sprintf("<%d,%d,", o.ID, o.N)
+			if o.K == "partial" {
+				pl = pl[:partialSent]
+			}
+			hdr := fmt.Sprintf("<%d,%d,", o.ID, o.N)
+			if bytes.HasPrefix(pl, []byte("<#")) {
+				hdr = fmt.Sprintf("<#%d,%d,", o.ID, o.N)
+			}
+			if !bytes.HasPrefix(pl, []byte(hdr)) {
+				continue // a message too short to identify itself
 			}
 			ns = append(ns, needle{o.ID, o.N, []byte(hdr)})
-			body := pl[len(pl)-o.Fill:]
+			var body []byte
+			if gt := bytes.IndexByte(pl, '>'); gt >= 0 && bytes.HasPrefix(pl, []byte("<#")) {
+				body = pl[gt+1:]
+			}
 			for off := 0; off+24 <= len(body) && off < 2048; off += 509 {
 				ns = append(ns, needle{o.ID, o.N, body[off : off+24]})
 			}
@@ -622,6 +658,13 @@ func runCase(k *hubkit.Kit, c *Case, res *lib.Result) []*hubkit.Peer {
 			if p := peers[o.N]; p != nil {
 				k.Leave(p)
 			}
+		case "partial":
+			// the connection fails in the middle of a data message (whatever its scopes): nothing of the
+			// part that arrived may be relayed
+			if p := peers[o.N]; p != nil && p.Refused == "" && p.Conn != nil {
+				k.Partial(p, o.MT, partialAnnounced, o.payload()[:partialSent])
+				res.Count("peer:died-mid-message")
+			}
 		case "send":
 			p := peers[o.N]
 			if p == nil || p.Refused != "" {
@@ -706,7 +749,7 @@ func oracle(c Case, idx int, peers []*hubkit.Peer, res *lib.Result) {
 		switch o.K {
 		case "join", "connect":
 			since[o.N] = i
-		case "leave":
+		case "leave", "partial":
 			until[o.N] = i
 		}
 	}
@@ -777,7 +820,7 @@ func main() {
 		lib.ReadReplayCase(a.Replay, &c)
 		cases = []Case{c}
 	} else {
-		n := a.Pick(512, 3072)
+		n := a.Pick(420, 3072)
 		// every subset of the pool turns up as participant 0 once per 256 cases, in seed-dependent order
 		off, mul := rng.Intn(256), 2*rng.Intn(128)+1
 		for i := 0; i < n; i++ {
@@ -800,6 +843,22 @@ func main() {
 	}
 	coq := make([]string, len(cases))
 	for i := range cases {
+		// environment that must not matter: the relay's log level, proxy / tracing headers (every other case
+		// gives ALL its connections the same forwarded address and ids), permessage-deflate offered
+		if cases[i].Level == "" {
+			cases[i].Level = []string{"panic", "debug", "trace"}[i%3]
+		}
+		if lv, err := log.ParseLevel(cases[i].Level); err == nil {
+			log.SetLevel(lv)
+		}
+		res.Count("log-level:" + cases[i].Level)
+		si := uint64(i)
+		if i%2 == 0 {
+			k.Headers = func(*hubkit.Peer) http.Header { return hubkit.ProxyHeaders(4*si + 1) }
+		} else {
+			k.Headers = func(p *hubkit.Peer) http.Header { return hubkit.ProxyHeaders(p.Name + si) }
+		}
+		k.Compress = func(p *hubkit.Peer) bool { return (p.Name+si)%3 == 0 }
 		peers := runCase(k, &cases[i], res)
 		oracle(cases[i], i, peers, res)
 		for _, p := range peers {
